@@ -6,6 +6,7 @@ import (
 	"context"
 	"errors"
 	"path/filepath"
+	"runtime"
 	"strconv"
 	"strings"
 
@@ -558,6 +559,86 @@ func VerifH_C09_crashRestart() {
 	}
 	for id := range ids {
 		vr.Assert(w.fsm.Dirs[filepath.Join(verifRoot, "snapshots", id)], "live-snapshot-keeps-its-directory")
+	}
+	vr.Reach("end")
+}
+
+// C08/H3 (concurrent callers): containerd's garbage collector calls Cleanup while a client calls Prepare / View /
+// Remove. The metadata store's transactions behave as bbolt's do (one writer, snapshot-isolated readers); the
+// engine switches threads at every lock operation and before every durable file-system effect. No backend fault is
+// injected, so: a plain Prepare succeeds, a Prepare with target reports AlreadyExists with the committed remote
+// snapshot mounted, no live snapshot ever loses its directory, and after a final Cleanup the directories on disk
+// are exactly those of live snapshots.
+func VerifH_C08_cleanupRacesCaller() {
+	verifFaults = 0
+	ctx := context.Background()
+	var opts []Opt
+	if vr.Bool("asyncRemove") {
+		opts = append(opts, AsynchronousRemove)
+	}
+	w := verifNewWorld(ctx, opts...)
+	w.bm.Concurrent = true
+	_, err := w.sn.Prepare(ctx, "a0", "")
+	vr.Assert(err == nil, "setup-prepare")
+	vr.Assert(w.sn.Commit(ctx, "base", "a0") == nil, "setup-commit")
+	_, err = w.sn.Prepare(ctx, "a1", "base")
+	vr.Assert(err == nil, "setup-prepare-active")
+
+	switches := 3
+	if vr.Tier() > 0 {
+		switches = 5
+	}
+	vr.Interleave(switches)
+	w.fsm.OnTick = func(n int) { runtime.Gosched() }
+	done := make(chan error, 1)
+	go func() { done <- w.sn.Cleanup(ctx) }()
+
+	op := vr.Choice("caller", 4)
+	switch op {
+	case 0: // plain Prepare
+		_, err := w.sn.Prepare(ctx, "k", "base")
+		vr.Assert(err == nil, "prepare-succeeds-while-cleanup-runs")
+	case 1: // Prepare with target: remote snapshot
+		_, err := w.sn.Prepare(ctx, "k", "base", snapshots.WithLabels(map[string]string{targetSnapshotLabel: "t"}))
+		vr.Assert(errdefs.IsAlreadyExists(err), "remote-prepare-reports-already-exists-while-cleanup-runs")
+		id, info, ok := w.idOf("t")
+		vr.Assert(ok && info.Kind == snapshots.KindCommitted, "already-exists-means-target-is-committed")
+		if ok {
+			_, remote := info.Labels[remoteLabel]
+			vr.Assert(remote, "snapshot-created-by-remote-prepare-is-marked-remote")
+			_, mounted := w.backend.live[w.sn.upperPath(id)]
+			vr.Assert(mounted, "remote-snapshot-created-with-its-backend-mount")
+		}
+	case 2: // View
+		_, err := w.sn.View(ctx, "v", "base")
+		vr.Assert(err == nil, "view-succeeds-while-cleanup-runs")
+	default: // Remove the active snapshot
+		vr.Assert(w.sn.Remove(ctx, "a1") == nil, "remove-succeeds-while-cleanup-runs")
+	}
+	cerr := <-done
+	vr.Assert(cerr == nil, "cleanup-succeeds")
+	w.fsm.OnTick = nil
+
+	dirsHave := func(id string) bool {
+		for _, d := range w.snapshotDirs() {
+			if d == id {
+				return true
+			}
+		}
+		return false
+	}
+	for id := range w.liveIDs() {
+		vr.Assert(dirsHave(id), "live-snapshot-keeps-its-directory")
+	}
+	w.invariants()
+	vr.Assert(w.sn.Cleanup(ctx) == nil, "final-cleanup")
+	ids := w.liveIDs()
+	for _, d := range w.snapshotDirs() {
+		_, live := ids[d]
+		vr.Assert(live, "after-cleanup-no-directory-without-a-live-snapshot")
+	}
+	for id := range ids {
+		vr.Assert(dirsHave(id), "after-cleanup-every-live-snapshot-keeps-its-directory")
 	}
 	vr.Reach("end")
 }
